@@ -4,6 +4,7 @@ import Hdl21Model.Drv.C18
 import Hdl21Model.Drv.C10
 import Hdl21Model.Drv.C09
 import Hdl21Model.Drv.C13
+import Hdl21Model.Drv.Sem
 open Lean
 
 /-- Line protocol: one JSON object per input line `{"prop": "C03", "op": ..., ...}`,
@@ -19,6 +20,7 @@ def dispatch (j : Json) : Except String Json := do
   | "C10" => Hdl21.Drv.C10.handle op j
   | "C09" => Hdl21.Drv.C09.handle op j
   | "C13" => Hdl21.Drv.C13.handle op j
+  | "SEM" => Hdl21.Drv.Sem.handle op j
   | _ => .error s!"unknown prop {prop}"
 
 partial def loop (hin hout : IO.FS.Stream) : IO Unit := do
